@@ -79,7 +79,7 @@ TConnect ==
     /\ IsEvent("connect")
     /\ E.res.r = "queued"
     /\ nets' = [nets EXCEPT ![E.n] = [NetInit EXCEPT !.phase = "connecting", !.cid = E.cid, !.clean = E.clean, !.will = WillOf(E.will)]]
-    /\ chan' = Append(chan, Ev("Connect", 0, E.n))
+    /\ chan' = Append(chan, Ev("Connect", 0, E.n, E.n))
     /\ UNCHANGED <<R, G>>
     /\ ProjMatch
 
@@ -117,20 +117,20 @@ TClose ==
     /\ IF E.res.r = "noop" THEN UNCHANGED vars
        ELSE /\ nets[E.n].phase = "up"
             /\ nets' = [nets EXCEPT ![E.n].phase = "closed"]
-            /\ chan' = Append(chan, Ev("Disconnect", nets[E.n].id, 0))
-            /\ G' = [G EXCEPT !.toAck[E.n] = <<>>, !.toComp[E.n] = <<>>, !.toRel[E.n] = <<>>, !.owed[E.n] = <<>>]
+            /\ chan' = Append(chan, Ev("Disconnect", nets[E.n].id, 0, E.n))
+            /\ G' = [G EXCEPT !.toAck[E.n] = <<>>, !.toComp[E.n] = <<>>, !.toRel[E.n] = <<>>]
             /\ UNCHANGED R
     /\ ProjMatch
 
 TWill ==
     /\ IsEvent("will")
-    /\ chan' = Append(chan, Ev("PublishWill", 0, nets[E.n].cid))
+    /\ chan' = Append(chan, Ev("PublishWill", 0, nets[E.n].cid, E.n))
     /\ UNCHANGED <<R, nets, G>>
     /\ ProjMatch
 
 TRawEvent ==
     /\ IsEvent("rawevent")
-    /\ chan' = Append(chan, Ev(E.kind, E.id, 0))
+    /\ chan' = Append(chan, Ev(E.kind, E.id, 0, "raw"))
     /\ UNCHANGED <<R, nets, G>>
     /\ ProjMatch
 
@@ -146,6 +146,14 @@ TConsume ==
 
 TraceNext == TReset \/ TConnect \/ TFinish \/ TPush \/ TDrain \/ TClose \/ TWill \/ TRawEvent \/ TEvent \/ TConsume
 TraceSpec == TraceInit /\ [][TraceNext]_tvars
+
+\* the same step properties on traces (a reset line starts a new behaviour)
+IsReset == l <= Len(Rec) /\ E.ev = "reset"
+OnlyOwnRemovalT == [][IsReset \/ OnlyOwnRemovalStep]_tvars
+AckClosesOnlyThatT == [][IsReset \/ AckClosesOnlyThatStep]_tvars
+NoCrossGenerationT == [][IsReset \/ NoCrossGenerationStep({"DeviceData", "Disconnect", "Ready", "PublishWill"})]_tvars
+\* known finding (C14): a late Event::Disconnect of an ended connection removes the connection that reuses its id
+NoCrossGenerationButDisconnectT == [][IsReset \/ NoCrossGenerationStep({"DeviceData", "Ready", "PublishWill"})]_tvars
 
 Progress == TLCSet(1, IF TLCGet(1) < l THEN l ELSE TLCGet(1))
 ASSUME TLCSet(1, 0)
